@@ -43,7 +43,7 @@
     // C02: operands written side by side without an operator are added; a leading sign gets an
     // implicit 0 in front; nothing else is changed
     #[kani::proof]
-    fn implicit_plus_and_leading_zero() { implicit_plus(5) }
+    fn implicit_plus_and_leading_zero() { implicit_plus(4) }
     #[kani::proof]
     fn implicit_plus_and_leading_zero_up_to_3() { implicit_plus(3) }
     fn implicit_plus(nmax: usize) {
